@@ -1,12 +1,13 @@
 CFG = dict(
     theorems=["C01.exactly_once_counting", "C01.emission_shape", "C01.intervals_strictly_increasing",
               "C01.row_in_one_interval", "C01.ontime_accepted", "C01.buffered_not_passed",
-              "C01.accepted_and_passed_is_emitted", "C01.processing_time_exactly_once", "C01.facts_watermark"],
+              "C01.accepted_and_passed_is_emitted", "C01.processing_time_exactly_once", "C01.facts_watermark",
+              "C01.exactly_once_counting_any_lateness", "C01.purge_keeps_pending_rows"],
     rule="event-time op sequences (add / deliver with adds in the unlock gap / drain / ticker) on the lattice k*size+{0,1,size-1}+jitter, "
          "out-of-orderness around MAXOUTOFORDERNESS, far-future and timestamp-less rows, bursts of 150 adds (watermark channel full); "
          "processing-time cases driven through Trigger(); distinct = distinct (cfg, op list)",
     assumptions=["pre-1970 timestamps are outside the claim (Go's alignment truncates toward zero): hypothesis OpsOk",
-                 "ALLOWEDLATENESS = 0 in C01 (late updates are C02)",
+                 "shape / ordering / completeness theorems are for ALLOWEDLATENESS = 0 (late updates are C02); conservation (exactly_once_counting_any_lateness) and the harmlessness of the purge hold for every ALLOWEDLATENESS",
                  "aggregate values of an emitted batch are C03/C04 (same code for every window kind)",
                  "mutex mutual exclusion: every op is one critical section of tw.mu / wm.mu; the harness drives the real window without its goroutines",
                  "processing time: the theorem assumes the clock hypothesis PtAllOk (ticks never early, now non-decreasing)"],
